@@ -5,11 +5,28 @@ from ..scenario import OrderView
 from ..exec import State
 
 
-def inv_of_level(h, lv):
-    """aggregates == sums, read directly from a level value"""
+def set_aside_entries(locals_):
+    """orders a running match_order has set aside (local `set_aside`), as (valid, None, order)"""
+    sa = (locals_ or {}).get('set_aside')
+    if not isinstance(sa, VecV):
+        return []
+    return [(S.Ult(S.bv(i, 64), sa.length), None, o) for i, o in enumerate(sa.cells) if o is not UNDEF]
+
+
+def inv_of_level(h, lv, locals_=None):
+    """aggregates == sums over the orders the level owns (order map + orders a running match has set
+    aside), read directly from a level value"""
     p = h.level_parts(lv)
-    d, hd, cnt = h.sums(p['resting'])
+    d, hd, cnt = h.sums(p['resting'] + set_aside_entries(locals_))
     return S.And(S.Eq(p['visible'], d), S.Eq(p['hidden'], hd), S.Eq(p['count'], cnt))
+
+
+def supply(h, lv, locals_, w):
+    tot = h.total_supply(lv, w)
+    for v, _, o in set_aside_entries(locals_):
+        ov = OrderView(h.L, o)
+        tot = S.Add(tot, S.Ite(v, S.Add(S.ZExt(ov.displayed, w), S.ZExt(ov.hidden, w)), S.bv(0, w)))
+    return tot
 
 
 def obligations(c):
@@ -22,8 +39,11 @@ def obligations(c):
             # pre-state assumes) must hold again at the loop head, so the argument extends to any
             # number of iterations by induction
             w = 70
-            good = S.And(inv_of_level(h, cut['level']), h.rep_invariant(cut['level']),
-                         S.Ule(h.total_supply(cut['level'], w), h.total_supply(rec['pre_level'], w)))
+            start_locals = (rec.get('start') or {}).get('locals')
+            sa_ok = [S.Implies(v, S.Not(S.AddOvf(OrderView(h.L, o).displayed, OrderView(h.L, o).hidden)))
+                     for v, _, o in set_aside_entries(cut['locals'])]
+            good = S.And(inv_of_level(h, cut['level'], cut['locals']), h.rep_invariant(cut['level']), S.And(sa_ok),
+                         S.Ule(supply(h, cut['level'], cut['locals'], w), supply(h, rec['pre_level'], start_locals, w)))
             obl.append({'name': 'step%d:%s loop-cut%d invariant re-established' % (k, p['op'], j),
                         'kind': 'obligation', 'goal': S.And(cut['guard'], S.Not(good))})
         if rec['agg'] is None:
@@ -54,9 +74,9 @@ def cubes(tier):
         n, k, depth, nadds, price = 3, 5, 4, 3, 3
     # family I: one operation from an ARBITRARY level state satisfying the invariant (inductive step;
     # match_order is cut at its loop head after one iteration, so any number of iterations is covered)
-    for op in 'ARMCQPBX':
+    for op in 'ARMICQPBX':
         out.append({'seq': op, 'pre': {'N': n, 'K': k}, 'cut_after': 1, 'pop_unwind': k + 2, 'qty_mode': 'full',
-                    'price': price, 'assume_unwind': False, 'family': 'inductive'})
+                    'price': price, 'assume_unwind': False, 'family': 'inductive', 'native': op != 'I'})
     # family H: complete histories from an empty level (end-to-end, validated against the real crate)
     for s in sequences(depth, nadds):
         mu = 5 if s.count('M') <= 1 else 3
